@@ -448,22 +448,22 @@ inline void Exec::prop_ops(vnaproperty_t **rootp, ObjKind ok, int oi, int ci, Ca
         const char *w = r.ok ? "valid" : r.err_any ? "bad-path" : r.err == ENOENT ? "missing-element" : "type-mismatch";
         // a null node: type/count/get/keys return the failure value with undocumented errno; get_subtree returns NULL with errno untouched
         {
-            Call k = mk(fnname("type"), !r.ok ? XP_FAIL : n ? XP_OK : XP_EITHER, r.ok ? C_ANY : causes_of(r), w, ok, oi); k.log = nullptr;
+            Call k = mk(fnname("type"), !r.ok ? XP_FAIL : n ? XP_OK : XP_EITHER, r.ok ? C_ANY : causes_of(r), w, ok, oi); k.log = nullptr; k.check_errno = !(r.ok && !n);
             if (K) icall(k, [&] { return vnacal_property_type(vcp, ci, "%s", ds.c_str()); }); else icall(k, [&] { return vnaproperty_type(*rootp, "%s", ds.c_str()); });
         }
         {
             bool coll_ok = n && n->kind != Node::SCALAR;
-            Call k = mk(fnname("count"), !r.ok ? XP_FAIL : coll_ok ? XP_OK : n ? XP_FAIL : XP_EITHER, !r.ok ? causes_of(r) : n ? C_USAGE : C_ANY, !r.ok ? w : coll_ok ? "valid" : "count-of-scalar", ok, oi); k.log = nullptr;
+            Call k = mk(fnname("count"), !r.ok ? XP_FAIL : coll_ok ? XP_OK : n ? XP_FAIL : XP_EITHER, !r.ok ? causes_of(r) : n ? C_USAGE : C_ANY, !r.ok ? w : coll_ok ? "valid" : "count-of-scalar", ok, oi); k.log = nullptr; k.check_errno = !(r.ok && !n);
             if (K) icall(k, [&] { return vnacal_property_count(vcp, ci, "%s", ds.c_str()); }); else icall(k, [&] { return vnaproperty_count(*rootp, "%s", ds.c_str()); });
         }
         {
             bool sc = n && n->kind == Node::SCALAR;
-            Call k = mk(fnname("get"), !r.ok ? XP_FAIL : sc ? XP_OK : n ? XP_FAIL : XP_EITHER, !r.ok ? causes_of(r) : n ? C_USAGE : C_ANY, !r.ok ? w : sc ? "valid" : "get-of-collection", ok, oi); k.log = nullptr;
+            Call k = mk(fnname("get"), !r.ok ? XP_FAIL : sc ? XP_OK : n ? XP_FAIL : XP_EITHER, !r.ok ? causes_of(r) : n ? C_USAGE : C_ANY, !r.ok ? w : sc ? "valid" : "get-of-collection", ok, oi); k.log = nullptr; k.check_errno = !(r.ok && !n);
             if (K) pcall<const char>(k, [&] { return vnacal_property_get(vcp, ci, "%s", ds.c_str()); }); else pcall<const char>(k, [&] { return vnaproperty_get(*rootp, "%s", ds.c_str()); });
         }
         {
             bool mp = n && n->kind == Node::MAP;
-            Call k = mk(fnname("keys"), !r.ok ? XP_FAIL : mp ? XP_OK : n ? XP_FAIL : XP_EITHER, !r.ok ? causes_of(r) : n ? C_USAGE : C_ANY, !r.ok ? w : mp ? "valid" : "keys-of-non-map", ok, oi); k.log = nullptr;
+            Call k = mk(fnname("keys"), !r.ok ? XP_FAIL : mp ? XP_OK : n ? XP_FAIL : XP_EITHER, !r.ok ? causes_of(r) : n ? C_USAGE : C_ANY, !r.ok ? w : mp ? "valid" : "keys-of-non-map", ok, oi); k.log = nullptr; k.check_errno = !(r.ok && !n);
             const char **keys;
             if (K) keys = pcall<const char *>(k, [&] { return vnacal_property_keys(vcp, ci, "%s", ds.c_str()); }); else keys = pcall<const char *>(k, [&] { return vnaproperty_keys(*rootp, "%s", ds.c_str()); });
             free((void *)keys);
